@@ -165,5 +165,15 @@ PROPS["C04"] = {
     "trusted_base": API_TRUST,
 }
 
+PROPS["C17"] = {
+    "engine": "api", "properties_file": "Properties/C17.v", "env": {"TZ": "UTC"},
+    "model_files": ["Model/Alias.v", "Model/Ops.v", "Model/CasesApi.v", "Spec/ApiSpec.v", "Spec/ReplySpec.v", "Spec/AliasSpec.v"],
+    "technique": "Coq: heap model (locations, cells, caller-reachability) with an invariant proved over all histories of caller writes / DeviceList / calls; differential histories with mutate-afterwards and buffer-overwrite probes",
+    "level_text": "Proved in a heap model of NewUHPPOTE / Device.Clone / DeviceList: construction puts the configuration in a fresh cell that nothing the caller holds can reach, and for EVERY history of caller writes (device array entries, door-name arrays - including those shared with the client through DeviceList -, returned maps), allocations, DeviceList calls and operations the fields routing reads (id, name, address, protocol) are unchanged. Tie: generated histories on the real client (mutations of the caller's slice and door names, of DeviceList's map and its entries) in which every operation is judged against the configuration at construction (C06 routing oracle + C02 reply oracle); every operation's arguments (card, profile, task, reader map, IP slices) are compared before/after the call; every returned value is re-rendered after all transport buffers handed out by the driver were overwritten; Card.Clone / Device.Clone equality and non-sharing probes.",
+    "level_note": "The functional model of the operations cannot express sharing; that operations do not modify their arguments, that results do not alias transport buffers and that clones share nothing are decided by the harness probes (direct failures), not by theorems. Trusted: the heap model's transcription of which cells each function allocates, copies and shares.",
+    "rule": "histories of 8-19 steps (mutate caller devices / door names / DeviceList results, operations for configured and unconfigured controllers); non-trivial = every recorded call; distinct = distinct Coq case terms.",
+    "trusted_base": API_TRUST,
+}
+
 DEV = {"API": {"engine": "api", "properties_file": "Properties/C12.v", "model_files": [], "env": {"TZ": "UTC"}}}
 NOT_YET = {}
